@@ -645,6 +645,14 @@ func providerFunc(c *spec.Case, p *spec.Prov, from string) string {
 	if p.Method {
 		return fmt.Sprintf("func (FactoryT) %s(%s) %s {\n%s}\n\n", p.Name, ps, rs, providerBody(c, p, from))
 	}
+	if p.FuncVar && p.FuncVarType != "" {
+		// the variable has a declared (named or alias) function type
+		eq := ""
+		if p.FuncVarType == "alias" {
+			eq = "= "
+		}
+		return fmt.Sprintf("type %sFunc %sfunc(%s) %s\n\nvar %s %sFunc = func(%s) %s {\n%s}\n\n", p.Name, eq, ps, rs, p.Name, p.Name, ps, rs, providerBody(c, p, from))
+	}
 	if p.FuncVar {
 		return fmt.Sprintf("var %s = func(%s) %s {\n%s}\n\n", p.Name, ps, rs, providerBody(c, p, from))
 	}
